@@ -64,7 +64,7 @@ def check(case, rec):
         j = int(np.argmax(np.where(simple, err / tolrow, 0.0)))
         rec.violation(f"efc.force[{j}] (type {int(t[j])}) = {ew['force'][j]} but the row law gives {implied[j]} (tol {tolrow[j]:.3g}) {ctx}", sig=f"force-implied:type{int(t[j])}", **ctx)
       qf = Jw.T @ ew["force"].astype(np.float64)
-      check_close(rec, "qfrc_constraint vs J^T force", qfrc[w], qf, 1e-4, scale=max(1.0, float(np.max(np.abs(Jw).T @ np.abs(ew["force"])))), sig="qfrc-implied", **ctx)
+      check_close(rec, "qfrc_constraint vs J^T force", qfrc[w], qf, 1e-4, scale=max(1.0, float(np.max(np.abs(Jw).T @ np.abs(ew["force"]))), float(np.max(np.abs(d.qfrc_smooth.numpy()[w])))), sig="qfrc-implied", **ctx)
     if unconverged:
       rec.cls("unconverged")
       continue
